@@ -5,6 +5,8 @@ import XalanModel.C19.XDeque
 import XalanModel.C19.XBVecProofs
 import XalanModel.C19.RArenaProofs
 import XalanModel.C19.AutoPtrProofs
+import XalanModel.Generated.C19_Construct
+import XalanModel.C19.OStreamProofs
 /-!
 # C19 — pluggable memory manager: balanced use; allocation failure is survivable
 
@@ -222,6 +224,63 @@ theorem autoptr_balanced_and_failure_contained (ops : List APState.Op) (l : Ledg
   intro r
   have h0 : Holds l (APState.owned {}) frame l.bad := by simpa [APState.owned] using holds_of_perm hl
   exact holds_nil_perm (APState.finish_spec _ _ frame l.bad (APState.run_spec ops {} l frame l.bad h0))
+
+/-- **Every `XalanConstruct` / `XalanCopyConstruct` overload of the working tree has the guard
+shape** (table regenerated from Include/XalanMemoryManagement.hpp on every run): it declares a
+`XalanAllocationGuard`, constructs with placement-new on `theGuard.get()`, releases the guard only
+after the constructor returned, and never constructs directly on the result of `allocate()`.
+With `guard_idiom_sound` this makes each of them exception-neutral for *any* exception the
+constructor throws — also an XSLT error in a failing, non-out-of-memory compilation. -/
+theorem all_construct_overloads_guarded :
+    ∀ o ∈ Generated.C19Construct.overloads,
+      o.hasGuard = true ∧ o.newOnGuard = true ∧ o.releasesAfter = true ∧ o.newOnRawAllocate = false := by
+  decide
+
+/-- **Every placement-new expression under src/xalanc constructs in storage that has an owner while
+the constructor runs** (table regenerated on every run): an allocation guard that is released
+afterwards, `XMemory::operator new(size, MemoryManager*)` (paired operator delete), an arena slot
+between `allocateBlock()` and `commitAllocation()`, or a container's own tracked storage — never
+the bare result of `MemoryManager::allocate`. -/
+theorem all_placement_sites_owned :
+    ∀ s ∈ Generated.C19Construct.sites,
+      s.storage ≠ .rawAllocate ∧ s.storage ≠ .unknown := by
+  have h : Generated.C19Construct.sites.all
+      (fun s => decide (s.storage ≠ .rawAllocate) && decide (s.storage ≠ .unknown)) = true := by
+    decide +kernel
+  intro s hs
+  have := List.all_eq_true.mp h s hs
+  simpa using this
+
+/-- **Output stream transcoder slot: no double destroy, balanced, under arbitrary failures.**
+An application-owned `XalanOutputStream` reused for any sequence of results: every history of
+`setOutputEncoding` over UTF-16 (no transcoder), supported encodings (a transcoder is made; making it
+may be refused at any request, and the copy of the encoding name after it may throw) and unsupported
+encodings (exception), every refusal index, every
+frame — the slot owns a transcoder or is empty, never names a destroyed one; after
+`~XalanOutputStream` exactly the frame is outstanding and nothing was freed twice or foreign. -/
+theorem ostream_transcoder_no_double_destroy (es : List (Enc × Bool)) (l : Ledger) (frame : List Nat)
+    (hl : l.live.Perm frame) :
+    let r := OStream.run false es {} l
+    r.1.stale = false ∧ (r.1.destroy r.2).live.Perm frame ∧ (r.1.destroy r.2).bad = l.bad := by
+  intro r
+  have h0 : OStream.Good {} l frame l.bad := ⟨rfl, by simpa [OStream.owned] using holds_of_perm hl⟩
+  have hg := OStream.run_spec es {} l frame l.bad h0
+  have := holds_nil_perm (OStream.destroy_spec _ _ frame l.bad hg)
+  exact ⟨hg.1, this.1, this.2⟩
+
+/-- **Mutation "m_transcoder not reset after destroyTranscoder"**: ISO-8859-1 then UTF-16 on one
+stream — the destructor destroys the ISO-8859-1 transcoder a second time (two blocks freed twice);
+and ISO-8859-1 then US-ASCII with the second transcoder refused (request 3) does the same.
+As written both histories are clean. -/
+theorem ostream_stale_pointer_counterexample :
+    (let r := OStream.run true [(.latin1, false), (.utf16, false)] {} {}
+     r.1.stale = true ∧ (r.1.destroy r.2).bad = 2) ∧
+    (let r := OStream.run true [(.latin1, false), (.ascii, false)] {} { failAt := 3 }
+     (r.1.destroy r.2).bad = 2) ∧
+    (let r := OStream.run false [(.latin1, false), (.utf16, false)] {} {}
+     (r.1.destroy r.2).bad = 0 ∧ (r.1.destroy r.2).live = []) ∧
+    (let r := OStream.run false [(.latin1, false), (.ascii, false)] {} { failAt := 3 }
+     (r.1.destroy r.2).bad = 0 ∧ (r.1.destroy r.2).live = []) := by decide
 
 /-- **"Reserve before create" (XalanTransformer.cpp:607-620, 747-778, 966-970).** After a
 successful `reserve(size()+1)` the `push_back` of the created object makes no allocation request
